@@ -27,6 +27,12 @@ pub fn walk_args(input: &Value, files0: Option<&std::path::Path>) -> Vec<String>
     let mut a: Vec<String> = vec![];
     let flag = cfg.get("modeflag").and_then(|m| m.as_str()).unwrap_or("");
     match cfg["mode"].as_str().unwrap_or("P") {
+        // several of -P -H -L: the last one is in force
+        _ if flag.starts_with("seq") => {
+            for c in flag[3..].chars() {
+                a.push(format!("-{}", c));
+            }
+        }
         "H" => a.push("-H".into()),
         // -follow in the expression follows every link, whatever -H / -P said before the starting points
         "L" if flag == "Hfollow" => a.push("-H".into()),
@@ -253,8 +259,10 @@ impl Prop for PWalk {
         let maxn = if tier == "thorough" { 40 } else { 22 };
         let n = 1 + rng.below(if idx % 7 == 0 { maxn } else { 10 });
         // (C18: also a name with a newline in it - as a starting point it can only come from a -files0-from list or be quoted)
-        let names: Vec<&str> = if self.flavour == "C18" { vec!["a", "b", "c", "d", "e", "ab", "ba", "x.y", "A", "a b", "é", "-n", "x\ny"] }
-                               else { vec!["a", "b", "c", "d", "e", "ab", "ba", "x.y", "A", "a b", "é", "-n"] };
+        // (C18: also names that begin like an operator of the expression; all: names that differ from a sibling's by a
+        // suffix that sorts before '/' - "a", "a b", "a.b", "a-" - where byte-wise name order and path order part ways)
+        let names: Vec<&str> = if self.flavour == "C18" { vec!["a", "b", "c", "d", "e", "ab", "ba", "x.y", "A", "a b", "é", "-n", "x\ny", "(old)", "!x", ",v", ")z", "a.b"] }
+                               else { vec!["a", "b", "c", "d", "e", "ab", "ba", "x.y", "A", "a b", "é", "-n", "a.b", "a-"] };
         let mut tree: Vec<Value> = vec![];
         let mut dirs: Vec<usize> = vec![]; // 1-based ids of directories
         let mut nonlinks: Vec<usize> = vec![];
@@ -353,7 +361,7 @@ impl Prop for PWalk {
             };
             roots.push(json!({"spell": str_to_json(&spell), "node": t}));
         }
-        let mode = *rng.pick(&["P", "P", "H", "L", "L", "Pexplicit", "follow", "Hfollow", "Pfollow"]);
+        let mode = *rng.pick(&["P", "P", "H", "L", "L", "Pexplicit", "follow", "Hfollow", "Pfollow", "seqLP", "seqHP", "seqPL", "seqHL", "seqLH", "seqLHP", "seqPHL"]);
         let (mut min, mut max) = (0u64, NOMAX);
         if rng.chance(1, 2) {
             min = rng.below(4) as u64;
@@ -363,7 +371,7 @@ impl Prop for PWalk {
         }
         let depth = rng.chance(1, 3);
         let sorted = nroots > 1 || rng.chance(2, 3);
-        let mut cfg = json!({"mode": if mode == "Pexplicit" { "P" } else if mode.ends_with("follow") { "L" } else { mode }, "min": min, "max": max, "depth": depth, "sorted": sorted, "prune": []});
+        let mut cfg = json!({"mode": if mode == "Pexplicit" { "P" } else if mode.ends_with("follow") { "L" } else if mode.starts_with("seq") { &mode[mode.len() - 1..] } else { mode }, "min": min, "max": max, "depth": depth, "sorted": sorted, "prune": []});
         if self.flavour == "C03" {
             // choose prune paths among the paths of directories below the roots (as find would print them)
             let mut cands: Vec<String> = vec![];
@@ -481,7 +489,7 @@ impl Prop for PWalk {
         }
         let roots_last_empty = roots.last().map(|r| arr(&r["spell"]).is_empty()).unwrap_or(false);
         let mut v = json!({"tree": tree, "roots": roots, "cfg": cfg, "form": rng.below(30)});
-        if mode == "Pexplicit" || mode.ends_with("follow") {
+        if mode == "Pexplicit" || mode.ends_with("follow") || mode.starts_with("seq") {
             v["cfg"]["modeflag"] = json!(mode);
         }
         if self.flavour == "C18" && !use_files0 && rng.chance(1, 8) {
